@@ -347,7 +347,11 @@ theorem stop_shift_invariance (P Q : Pre ℝ) (hn : P.n = Q.n) (hN : P.N = Q.N) 
 
 /-- the same statement for the tree's `_precalculations` of two systems (e.g. the same lens with
 the stop on another surface): same index and curvature arrays, same marginal ray, same
-Lagrange invariant ⇒ same `S_I` and `S_IV`. -/
+Lagrange invariant ⇒ same `S_I` and `S_IV`.
+Conditional: that moving the stop leaves the marginal ray (`hm`) and the Lagrange invariant (`hI`) unchanged
+is *assumed* here, not derived from "same lens, other stop surface" (it holds for an infinite object with an
+EPD aperture and an angular field; for a finite object the model's marginal ray is launched towards the
+entrance pupil and does change with the stop).  The harness checks `hI` numerically before it compares. -/
 theorem stop_shift_invariance_sys (S S' : PSys ℝ) (nF nC nF' nC' : List ℝ)
     (hn : nList S = nList S') (hlen : S.surfs.length = S'.surfs.length)
     (hC : curvatures S.surfs = curvatures S'.surfs) (hm : marginalRay S = marginalRay S')
@@ -662,5 +666,91 @@ example : (1 / (50:ℝ) * 5) ^ 2 ≤ 1 ∧ ((1:ℝ) / (3/2) * (1 / 50 * 5)) ^ 2 
   have h := D_pos ((1:ℝ) / (3/2)) (1 / 50 * 5) (by norm_num) (by norm_num) (by norm_num)
   exact ⟨by norm_num, by norm_num, h.1.ne', h.2.ne'⟩
 
+
+/-! ### review additions: joint non-vacuity of the system-level hypotheses; what the guard `H ≠ 0` excludes -/
+
+theorem inverted_single (n n' r h t fld : ℝ) :
+    inverted (single n n' r h t fld).surfs =
+      [⟨.standard, 0, t - t, 0 * (-1), n', n', false, false⟩, ⟨.standard, 0, t - 0, r * (-1), n', n, false, true⟩,
+       ⟨.object, 0, t - 0, 0 * (-1), n, n, false, false⟩] := by
+  simp [inverted, single]
+
+theorem stop_inverted_single (n n' r h t fld : ℝ) :
+    stopIndex (inverted (single n n' r h t fld).surfs) = some 1 := by
+  rw [inverted_single]; simp [stopIndex, List.findIdx?_cons]
+
+theorem chief_single (n n' r h t fld : ℝ) :
+    chiefRay (single n n' r h t fld) =
+      [⟨0, Real.tan (fld * (Real.pi / 180)), 0⟩, ⟨0, n'⁻¹ * (n * Real.tan (fld * (Real.pi / 180))), 0⟩,
+       ⟨t * (n'⁻¹ * (n * Real.tan (fld * (Real.pi / 180)))),
+        n'⁻¹ * (n' * (n'⁻¹ * (n * Real.tan (fld * (Real.pi / 180))))), t⟩] := by
+  simp only [chiefRay, stop_inverted_single, Option.getD_some, traceGeneric, if_true]
+  rw [inverted_single]
+  simp only [single, posOf, Bool.false_eq_true, if_false,
+    ptrace, pstep, pstepStd, List.map, List.getD_cons_succ, List.getD_cons_zero, 
+    List.drop, ys, us, last, tenth, deg2rad,
+    List.getLastD_cons, List.getLastD_nil]
+  num_real
+  norm_num
+/-- the Lagrange invariant of the one-surface system: `−h·n·tan θ` -/
+theorem invariant_single (n n' r h t fld : ℝ) (hn' : n' ≠ 0) :
+    invariant (single n n' r h t fld) = -(h * n * Real.tan (fld * (Real.pi / 180))) := by
+  unfold invariant
+  rw [chief_single, marginal_single]
+  simp only [nList, single, ys, us, nth, List.map, List.getD_cons_succ, List.getD_cons_zero]
+  num_real
+  field_simp
+  ring
+
+theorem tan_deg_pos : 0 < Real.tan ((1 : ℝ) * (Real.pi / 180)) := by
+  apply Real.tan_pos_of_pos_of_lt_pi_div_two <;> nlinarith [Real.pi_pos]
+
+/-- **non-vacuity of `code_terms_eq_classical` / `model_terms_eq_classical` / `tsc_predicts_real_partial`**:
+the one-surface lens `R = 50`, air → `n = 3/2`, semi-aperture 5, field 1°, image plane at 150 is a
+well-formed system, has no mirror, and meets the system guards `H ≠ 0`, `n' ≠ 0`, `u' ≠ 0`. -/
+example : WFsys (single 1 (3/2) 50 5 150 1).surfs 1 ∧ (∀ s ∈ (single 1 (3/2) 50 5 150 1).surfs, s.refl = false) ∧
+    SysOK (precalcCode (single 1 (3/2) 50 5 150 1) [] []) ∧ invariant (single 1 (3/2) 50 5 150 1) ≠ 0 := by
+  have hI : invariant (single 1 (3/2) 50 5 150 1) ≠ 0 := by
+    rw [invariant_single _ _ _ _ _ _ (by norm_num)]
+    have := tan_deg_pos
+    intro h0; nlinarith
+  refine ⟨⟨?_, ?_, ?_⟩, ?_, ⟨hI, ?_, ?_⟩, hI⟩
+  · intro s hs; simp [single] at hs; rcases hs with rfl | rfl | rfl <;> norm_num
+  · simp [C04.Chained, single]
+  · intro k h1 h2
+    have : k = 1 := by simp [single] at h2; omega
+    subst this; simp [single]
+  · intro s hs; simp [single] at hs; rcases hs with rfl | rfl | rfl <;> rfl
+  · simp [Pre.nL, precalcCode, nList, single, last]
+  · simp only [Pre.uL, precalcCode, marginal_single]
+    simp [us, last]
+    norm_num
+
+/-- **what the guard `P.inv ≠ 0` excludes.**  When the Lagrange invariant is 0 (a lens analysed with the
+on-axis field only: the chief ray is identically zero) the tree's `_hp` is 0, so *every* third-order term
+and every Seidel sum it returns is 0 — although the classical spherical contribution
+`S_I = −A² y Δ(u/n)` does not involve the chief ray at all and is not 0.  `terms_eq_classical` therefore says
+nothing about such a call, and the implementation's answer there is not the classical one (observed on the
+real code: singlet R = ±50, N-BK7, EPD 10, single field 0°: `TSC() = [0, 0]`, `seidels() = 0`; with a second
+field of 5° `TSC() = [-0.0055, -0.0742]`). -/
+theorem terms_vanish_when_invariant_zero (P : Pre ℝ) (k : ℕ) (h : P.inv = 0) :
+    P.tscTerm k = 0 ∧ P.ccTerm k = 0 ∧ P.tacTerm k = 0 ∧ P.tpcTerm k = 0 ∧ P.dcTerm k = 0 ∧
+    P.seidels = [0, 0, 0, 0, 0] := by
+  have hp : P.hp = 0 := by unfold Pre.hp; rw [h]; num_real; simp
+  have t1 : ∀ k, P.tscTerm k = 0 := fun k => by unfold Pre.tscTerm; rw [hp]; num_real; ring
+  have t2 : ∀ k, P.ccTerm k = 0 := fun k => by unfold Pre.ccTerm; rw [hp]; num_real; ring
+  have t3 : ∀ k, P.tacTerm k = 0 := fun k => by unfold Pre.tacTerm; rw [hp]; num_real; ring
+  have t4 : ∀ k, P.tpcTerm k = 0 := fun k => by unfold Pre.tpcTerm; rw [hp, h]; num_real; simp
+  have t5 : ∀ k, P.dcTerm k = 0 := fun k => by unfold Pre.dcTerm; rw [hp]; num_real; ring
+  have hz : ∀ f : ℕ → ℝ, (∀ k, f k = 0) → (P.arr f).sum = 0 := by
+    intro f hf
+    apply List.sum_eq_zero
+    intro x hx
+    simp only [Pre.arr, List.mem_map] at hx
+    obtain ⟨j, -, rfl⟩ := hx
+    exact hf _
+  refine ⟨t1 k, t2 k, t3 k, t4 k, t5 k, ?_⟩
+  rw [(sums_are_sums P).1]
+  simp only [Pre.TSC, Pre.CC, Pre.TAC, Pre.TPC, Pre.DC, hz _ t1, hz _ t2, hz _ t3, hz _ t4, hz _ t5, mul_zero]
 
 end C08
